@@ -134,13 +134,29 @@ def body(p, opi, ident=None):
                     if a2 != f2:
                         problems.append((f"after {op}, {op2} answers {a2!r} but a fresh copy answers {f2!r}", f"{op2}:after-{op}"))
                         break
+                # 3b. answers depend only on the object: another object with the same pairs but other letters and one more (unpaired)
+                #     residue is queried in between
+                if op == "dot_bracket":
+                    seq2 = "".join(LETTERS[(i + 7) % 26].swapcase() for i in range(n)) + "N"
+                    sib = BpSeq([Entry(i + 1, seq2[i], pc[i]) for i in range(n)] + [Entry(n + 1, "N", 0)])
+                    sa = answer("dot_bracket", sib)
+                    if sa[0] != seq2 or len(sa[1]) != n + 1:
+                        problems.append((f"dot_bracket of an object with sequence {seq2} answers {sa!r}", "dot_bracket:other-object"))
+                    na = answer("dot_bracket", fresh_native())
+                    if na[0] != seq or len(na[1]) != n:
+                        problems.append((f"dot_bracket of an object with sequence {seq} answers {na!r} after another object was queried", "dot_bracket:other-object"))
                 # 4. operations on a returned structure must not reach back into the receiver
                 if op in ("without_pseudoknots", "without_isolated"):
                     nb = fresh_native()
                     r = nb.without_pseudoknots() if op == "without_pseudoknots" else nb.without_isolated()
                     if r is not nb:
+                        # the returned structure answers like a fresh object built from its own entries
+                        rf = BpSeq([Entry(a_, b_, c_) for a_, b_, c_ in _entries(r)])
                         for op2 in OPS:
-                            answer(op2, r)
+                            if answer(op2, r) != answer(op2, rf):
+                                problems.append((f"the result of {op} answers {op2} as {answer(op2, r)!r}, a fresh object with the same entries as "
+                                                 f"{answer(op2, rf)!r}", f"{op}:result-{op2}"))
+                                break
                         if _entries(nb) != want_entries or sorted(nb.pairs.items()) != want_pairs:
                             problems.append((f"operations on the result of {op} change the receiver", f"{op}:aliasing"))
                         for op2 in OPS:
